@@ -57,6 +57,7 @@ type Contract struct {
 	Decl    *ast.FuncDecl
 	Clause  *ast.CaseClause // for clause units
 	ResVars []string
+	PreDecls []ast.Stmt
 }
 
 func (c *Contract) primary() string {
@@ -537,8 +538,8 @@ func (pk *Pkg) injectAndRecheck(w *World) error {
 			cl.Expr = e
 			return &ast.AssignStmt{Lhs: []ast.Expr{ast.NewIdent("_")}, Tok: token.ASSIGN, Rhs: []ast.Expr{e}}, nil
 		}
-		var inj []ast.Stmt
-		for _, lst := range [][]*Clause{c.Requires, c.Ensures, c.Assumes} {
+		var inj, injPost []ast.Stmt
+		for _, lst := range [][]*Clause{c.Requires, c.Assumes} {
 			for _, cl := range lst {
 				s, err := mkStmt(cl)
 				if err != nil {
@@ -547,9 +548,32 @@ func (pk *Pkg) injectAndRecheck(w *World) error {
 				inj = append(inj, s)
 			}
 		}
-		blk := &ast.BlockStmt{List: append(pre, inj...)}
+		for _, cl := range c.Ensures {
+			s, err := mkStmt(cl)
+			if err != nil {
+				return err
+			}
+			injPost = append(injPost, s)
+		}
+		blk := &ast.BlockStmt{List: inj}
 		pk.Injected[blk] = true
-		*body = append([]ast.Stmt{blk}, *body...)
+		for _, s := range pre {
+			pk.Injected[s] = true
+		}
+		c.PreDecls = pre
+		postBlk := &ast.BlockStmt{List: injPost}
+		pk.Injected[postBlk] = true
+		nb := append([]ast.Stmt{}, pre...)
+		nb = append(nb, blk)
+		if n := len(*body); n > 0 && label == "" && fd.Type.Results != nil && len(fd.Type.Results.List) > 0 {
+			// keep the function's terminating statement last
+			nb = append(nb, (*body)[:n-1]...)
+			nb = append(nb, postBlk, (*body)[n-1])
+		} else {
+			nb = append(nb, *body...)
+			nb = append(nb, postBlk)
+		}
+		*body = nb
 		// loops
 		var loops []ast.Stmt
 		if label == "" {
